@@ -186,7 +186,9 @@ func (conv *converter) addCustomDecl(dst *ir.File, decl ast.Decl) {
 	begin := conv.fset.Position(decl.Pos())
 	end := conv.fset.Position(decl.End())
 	src := conv.src[begin.Offset:end.Offset]
-	dst.CustomDecls = append(dst.CustomDecls, string(src))
+	// The declarations are compiled from a buffer of their own;
+	// the directive makes the errors found there refer to this file.
+	dst.CustomDecls = append(dst.CustomDecls, fmt.Sprintf("//line %s:%d\n%s", begin.Filename, begin.Line, src))
 }
 
 func (conv *converter) isMatcherFunc(f *ast.FuncDecl) bool {
